@@ -55,7 +55,7 @@ def oracle_c12(line, case, stats, allc=None, lines=None):
 C10_TEXT = ('Theorem C10_limit_after_successful_writes: for every configuration of the level-2 model (selectors, handlers, failure injection), every limit M that '
             'admits the preallocation and every sequence of successful writes, accounted usage (parsing buffer + open-element stack) <= M and retained not-yet-emitted '
             'input <= M; one-step invariant C10_write_keeps_limit; the stack is charged before it grows. The failing call returns MemoryLimitExceeded in the model by construction. '
-            'Partial: monotonicity in M and determinism are checked by the correspondence run / sweep oracle only. Known finding PreallocAboveLimit (witness lemma in props/C10.v).')
+            'C10_buffer_growth_is_monotone_in_the_limit / C10_stack_growth_is_monotone_in_the_limit: an arena append or stack push admitted under limit M is admitted, with the same result, under every M\' >= M. Partial: whole-run monotonicity in M and determinism are checked by the correspondence run / sweep oracle only. Known finding PreallocAboveLimit (witness lemma in props/C10.v).')
 TILING = ('Coq proof: tiling invariant sink = chunk[0..remaining_content_start) through lexer, tag scanner, bookmark hand-offs, dispatcher and stream '
           '(proofs/Tiling.v, generic in the table) + side conditions decided by vm_compute on the regenerated table (proofs/TableFacts.v); extraction-based correspondence run')
 COROLL = 'Coq proof: corollary of the tiling theorem (proofs/Tiling.v, Corollaries.v) + extraction-based correspondence run; oracle on the implementation'
@@ -114,10 +114,10 @@ PROPS = {
                    'C11_flags_are_independent. Partial: stated for the first failing write() (end() is covered by the correspondence run and oracle); handler-mutating configurations, '
                    'bail-out handler ordering/once-only are checked by correspondence + oracle.',
         level_note='Trusted as C01. Failure injection in the harness: k-th handler invocation fails / memory limit sweep; correspondence on output bytes and sink call sequence.'),
-    'C15': dict(coq=['props/C15.vo'], families=[('l1', 600, 20000), ('l2mixed', 600, 20000), ('l1fail', 300, 5000), ('mem', 300, 5000), ('enc', 500, 10000)], projections=['results'], oracle=oracle_c15, classify=classify_c15,
-        technique=TILING + '; harness built with debug assertions and overflow checks, every call under catch_unwind',
+    'C15': dict(coq=['props/C15.vo'], families=[('l1', 600, 20000), ('l2mixed', 600, 20000), ('l1fail', 300, 5000), ('mem', 300, 5000), ('enc', 500, 10000), ('runs', 14, 80)], projections=['results'], oracle=oracle_c15, classify=classify_c15,
+        technique=TILING + '; harness built with debug assertions and overflow checks, every call under catch_unwind; long-run inputs on a 512 KiB stack (an abnormal end of the process is reported with the unfinished case as the replay)',
         level_text='Theorem C15_no_offset_panic: in the model every slice of the chunk and the end-of-chunk cursor rewind is a checked operation; for every observer controller, input and chunking '
-                   'they never fail (the debug_assert! in Bytes::slice and the usize underflow in break_on_end_of_input are unreachable); C15_wrap32_in_range (i32 arithmetic of nth-child). '
+                   'they never fail (the debug_assert! in Bytes::slice and the usize underflow in break_on_end_of_input are unreachable); C15_wrap32_in_range (i32 arithmetic of nth-child); C15_inline_transitions_form_no_cycle (on the regenerated state table the `--> #[inline]` edges, which are direct calls, form no cycle: nested state-function calls are bounded by the number of states for every input). '
                    'Partial: termination/linear work is by fuel in the model (fuel exhaustion would show as a model panic in the correspondence run, never observed); code outside the model '
                    '(cssparser, encoding_rs, Debug impls), stack exhaustion and allocation failure are not covered. Known finding PreallocAboveLimit.',
         level_note='Trusted as C01; the correspondence run compares call results incl. panics caught by catch_unwind in a debug-assertion + overflow-check build.'),
@@ -134,7 +134,7 @@ PROPS = {
                    'C04_attribute_bailout_and_recovery_equal_one_phase_execution, C04_ast_denotes_the_selector_list, C04_left_to_right_matching_is_css_matching, '
                    'C04_compiled_program_represents_the_ast, C04_stack_items_hold_the_ast_frontier and the end-to-end C04_selector_vm_is_css_matching: for every selector list, every sequence of '
                    'start/end tags through the controller model and every further start tag, the ids handed to start_matching are exactly the selectors CssSem.selector_matches selects for the new element '
-                   'in the induced tree (hypotheses: no element with 2^31-1 children; :not() arguments that flatten exactly, nth offsets in i32, non-empty class names). '
+                   'in the induced tree (hypotheses: no element with 2^31-1 children; :not() arguments that flatten exactly, non-empty class names); C04_selector_vm_is_css_matching_for_checked_selectors states it with the decidable check sel_okb on the selector list. '
                    'Partial: this is a theorem about the model of the controller; selector parsing (cssparser/selectors crates) and the tag stream that reaches the controller are outside it. '
                    'On the implementation the property is decided by running the extracted reference semantics '
                    '(tree induced by explicit tags, right-to-left matching over the ancestor chain) on the model\'s tag stream and comparing with the handler invocations of the real rewriter, '
@@ -145,7 +145,7 @@ PROPS = {
                   'extracted reference scope model (spec/CssSem.v scope_events) as oracle for the implementation\'s handler invocation log; extraction-based correspondence run',
         level_text='Theorems C05_handler_counts_track_open_matched_elements and C05_scoped_handler_active_iff_matched_element_open: for every selector set, handler scripts, failure point, configuration, document and chunking, '
                    'in every state reached through successful writes the activation count of each comment/text handler = its initial count + the number of (open element, matched selector) pairs that own it, so a selector-scoped '
-                   'handler is active exactly while a matched element is on the open-element stack. C05_end_tag_pops_exactly_the_closed_elements / C05_end_tag_stops_exactly_the_closed_elements: on every stack that follows the tag-induced tree (every reachable one, C04) an end tag deactivates exactly the open elements it closes in the tree, each once, and a stray end tag nothing; with C04_stack_items_hold_the_ast_frontier each open element\'s matched set is its CSS match set, and C05_scoped_handlers_follow_css_matching_on_the_tree (proofs/ScopeCss.v) puts the two together at the controller: after every sequence of start/end tags a selector-scoped text/comment handler is active exactly when some open element of the induced tree is matched (CssSem) by a selector that owns it. Partial: that the end-tag handler then runs at that end tag token, registration order and the '
+                   'handler is active exactly while a matched element is on the open-element stack. C05_end_tag_pops_exactly_the_closed_elements / C05_end_tag_stops_exactly_the_closed_elements: on every stack that follows the tag-induced tree (every reachable one, C04) an end tag deactivates exactly the open elements it closes in the tree, each once, and a stray end tag nothing; with C04_stack_items_hold_the_ast_frontier each open element\'s matched set is its CSS match set, and C05_scoped_handlers_follow_css_matching_on_the_tree (proofs/ScopeCss.v) puts the two together at the controller: after every sequence of start/end tags a selector-scoped text/comment handler is active exactly when some open element of the induced tree is matched (CssSem) by a selector that owns it (C05_scoped_handlers_follow_css_matching_for_checked_selectors: same with the decidable selector check). Partial: that the end-tag handler then runs at that end tag token, registration order and the '
                    'end handler are decided by comparing the complete handler-invocation sequence of the real rewriter with the extracted reference scope model (text chunks collapsed per node; end-tag handlers of one end tag and '
                    'end handlers compared as sets) and by the correspondence run.',
         level_note='Trusted as C04.'),
@@ -159,7 +159,7 @@ PROPS = {
                    'by the level-3 harness oracle (strings read vs Encoding::decode_without_bom_handling of the token bytes, sink bytes vs Encoding::encode, set_encoding positions, refusal of non-ASCII-compatible encodings is by type). '
                    'The model of TextDecoder is tied to the code by the correspondence run on text-only UTF-8 documents (chunk text merged per node, ranges, last flags).',
         level_note='Trusted as C01 plus: decoder_laws as the contract of encoding_rs::Decoder::decode_to_str; harness/src/l3.rs (reference computations with encoding_rs one-shot decode/encode); the Coq UTF-8 decoder instance is a model of encoding_rs validated only by the correspondence run.'),
-    'C18': dict(coq=['props/C18.vo'], families=[('mem', 900, 20000), ('l2mixed', 400, 8000), ('l1', 300, 6000), ('l2fail', 200, 4000), ('enc', 100, 2000), ('twins', 200, 4000)], projections=['full'], oracle=oracle_c18, prepare=prepare_c18,
+    'C18': dict(coq=['props/C18.vo'], families=[('mem', 900, 20000), ('l2mixed', 400, 8000), ('l1', 300, 6000), ('l2fail', 200, 4000), ('enc', 100, 2000), ('twins', 200, 4000), ('leak', 40, 400)], projections=['full'], oracle=oracle_c18, prepare=prepare_c18,
         technique='Coq proof by computation over the inventory of global state that the translator regenerates from the source (no process-wide mutable state, one allowed thread-local); '
                   'extraction-based correspondence run against the model (a pure function); thread-schedule differential runs of the implementation (fresh thread / shared thread / 16 and 3 concurrent workers / migrating send::HtmlRewriter)',
         level_text='Theorems C18_no_shared_mutable_state and C18_c_api_last_error_is_thread_local: every static / thread_local / lazy_static item in src/ and c-api/src/ (inventory regenerated from the source each run) is immutable, '
@@ -180,7 +180,7 @@ PROPS = {
         technique='Coq proofs about the ambiguity guard and the simulator tables (regenerated from the source) against WHATWG lists written from the standard; extraction-based correspondence run; '
                   'independent WHATWG reference tokenizer (tools/whatwg_ref.py) as oracle for the captured token stream; strict / non-strict pair runs',
         level_text='Theorems C03_tables_are_the_whatwg_lists, C03_tag_constants_are_name_hashes, C03_strict_fails_only_when_ambiguous, C03_ambiguity_is_refused_in_{select,template_in_select,frameset}, '
-                   'C03_strict_and_non_strict_feedback_agree_on_{start,end}_tags. Partial: "the token stream is the WHATWG tokenizer\'s" is not a theorem (no formal WHATWG tokenizer + tree builder); it is decided by comparing every token '
+                   'C03_strict_and_non_strict_feedback_agree_on_{start,end}_tags; C03_strict_run_without_ambiguity_is_the_non_strict_run / C03_successful_strict_run_equals_the_non_strict_run (proofs/StrictErase.v): for every controller, configuration, input and chunking a strict run in which no call reports ParsingAmbiguity is call for call the non-strict run (same results, sink calls, controller state). Partial: "the token stream is the WHATWG tokenizer\'s" is not a theorem (no formal WHATWG tokenizer + tree builder); it is decided by comparing every token '
                    '(names, attributes, self-closing flag, comment text, doctype fields, text ranges) of successful strict runs with capture-everything policy against an independent reference tokenizer written from the standard and driven by the '
                    'tree-construction rules that matter on the claimed domain (HTML tag soup without svg/math; well-nested foreign islands with integration points and CDATA), for random chunkings; whole-run equality of a successful strict run '
                    'and the non-strict run is decided on pairs of runs. Known finding IntegrationPointNameReuse.',
